@@ -44,7 +44,8 @@ class Executor:
         self.last_run = {}
 
     def cfgdir(self, i):
-        return self.cfg_root / f'v{i}'
+        # (a variant may live in another variant's directory: a second root file next to the same prerequisite files)
+        return self.cfg_root / f"v{self.hist['variants'][i].get('cfgdir_of', i)}"
 
     def write_files(self):
         for i, case in enumerate(self.hist['variants']):
@@ -100,7 +101,7 @@ class Executor:
                         cfg._name = f'mc{j}_{cfg._name}'  # distinct names (documented requirement)
                         configs.append(cfg)
                         names.append(cfg.name)
-                    mc = taskchain.MultiChain(configs)
+                    mc = taskchain.MultiChain(configs, parameter_mode=op.get('pm', True))
                     self.slots.append(('multi', mc, names))
                     res = {'members': [self.describe_chain(mc[n]) for n in names]}
                 elif kind == 'restart':
@@ -322,10 +323,12 @@ class StoreModel:
         self.levels = {}      # (process, task full name) -> logger threshold set by the user (C18)
         self._cur_proc = 'main'
 
-    def mtasks(self, vi, pm=True):
-        key = (vi, pm)
+    def mtasks(self, vi, pm=True, root_name_prefix=None):
+        key = (vi, pm, root_name_prefix)
         if key not in self._mt_cache:
-            self._mt_cache[key] = model.build_tasks(self.hist['variants'][vi], self.cfg_root / f'v{vi}', pm)
+            self._mt_cache[key] = model.build_tasks(self.hist['variants'][vi],
+                                                    self.cfg_root / f"v{self.hist['variants'][vi].get('cfgdir_of', vi)}", pm,
+                                                    root_name_prefix=root_name_prefix)
         return self._mt_cache[key]
 
     # -- helpers
@@ -489,7 +492,10 @@ class StoreModel:
                     new = ('chain', mch)
                 else:
                     reg = {}
-                    members = [MChain(self.mtasks(vi % len(self.hist['variants'])), reg) for vi in op['variants']]
+                    pm_ = op.get('pm', True)
+                    # (member configs are renamed mc<j>_<name>: in name mode that is part of the root tasks' location)
+                    members = [MChain(self.mtasks(vi % len(self.hist['variants']), pm_, None if pm_ else f'mc{j}_'), reg,
+                                      pm=pm_) for j, vi in enumerate(op['variants'])]
                     new = ('multi', members)
             except model.ModelError as e:
                 if err is None:
